@@ -210,7 +210,7 @@ def caseLine (op0 : String) (t : List String) (ptoks : List String) : String :=
               -- gw_handle_subrequest(): the backend is started when the body is complete, or at
               -- once when streaming; CGI-style gateways answer 411 for a streamed chunked body
               let chunkedReq := p.bodyLen = -1
-              let streaming := hasFlag fl 1024
+              let streaming := (hasFlag fl 1024 || hasFlag fl 4096)
               let fc := firstComplete sched (rawLenOf body bodyBytes)
               let fin (reqlen : Int) (out : Bytes) : String :=
                 echo ++ op0 ++ " rc=2 st=0 gs=" ++ (if reqlen = (out.length : Int) then "4" else "3") ++
@@ -293,7 +293,7 @@ def caseLine (op0 : String) (t : List String) (ptoks : List String) : String :=
                   | _ => none
                 let cfg : Proxy.Cfg :=
                   { forceHttp10 := hasFlag fl 2048, replaceHost := rhost, forwarded := fwd.toNat?.getD 0,
-                    authorizer := authorizer, streaming := hasFlag fl 1024 }
+                    authorizer := authorizer, streaming := (hasFlag fl 1024 || hasFlag fl 4096) }
                 let preq : Proxy.Req :=
                   { method := p.method,
                     isGetOrHead := p.method = ofString "GET" || p.method = ofString "HEAD",
@@ -316,29 +316,40 @@ def caseLine (op0 : String) (t : List String) (ptoks : List String) : String :=
 
 end CgiDrv
 
-/-- "h2data <cl> <body> <frames len.pad.end,...> <segmentation>" -/
-def CgiDrv.h2dataLine (cl body frames : String) : String :=
-  match cl.toInt?, CgiDrv.bodyOf body with
-  | some cl, some bodyBytes =>
-    let specs := (frames.splitOn ",").map fun f => (f.splitOn ".").map String.toInt?
-    let rec build : List (List (Option Int)) → Bytes → List DataFrame → Option (List DataFrame)
+/-- "h2data <cl> <maxkb> <consumer> <body> <frames len.pad.end[.x],...> <segmentation>" -/
+def CgiDrv.h2dataLine (cl maxkb cons body frames : String) : String :=
+  match cl.toInt?, maxkb.toNat?, CgiDrv.bodyOf body with
+  | some cl, some maxkb, some bodyBytes =>
+    let rec build : List (List String) → Bytes → List DataFrame → Option (List DataFrame)
       | [], _, acc => some acc.reverse
-      | [some dl, some pad, some e] :: rest, b, acc =>
-        let n := dl.toNat
-        build rest (b.drop n) ({ payload := b.take n, pad := if pad < 0 then none else some pad.toNat,
-                                  endStream := e ≠ 0 } :: acc)
-      | _ :: _, _, _ => none
-    match build specs bodyBytes [] with
+      | spec :: rest, b, acc =>
+        match spec with
+        | dl :: pad :: e :: x =>
+          match dl.toNat?, pad.toInt?, e.toNat? with
+          | some n, some pad, some e =>
+            let d := b.take n
+            let raw : Bytes :=
+              if pad < 0 then d
+              else pad.toNat.toUInt8 :: d ++ (if x = ["x"] then [] else List.replicate pad.toNat 0xAA)
+            build rest (b.drop n) ({ padded := pad ≥ 0, endStream := e ≠ 0, raw := raw } :: acc)
+          | _, _, _ => none
+        | _ => none
+    match build ((frames.splitOn ",").map (·.splitOn ".")) bodyBytes [] with
     | none => "bad-op"
     | some fs =>
-      let st := h2Body cl fs
+      let c : H2Cfg := { consumer := cons = "1", maxSize := maxkb }
+      let st := h2Body c cl fs
+      let rb := if st.goaway then "-" else
+        match h2ReqbodyRead c.consumer st with
+        | .ready => "ready" | .more => "more" | .wait => "wait" | .error => "error"
       "h2data state=" ++ (match st.state with | .open => "open" | .halfClosedRemote => "hcr" | .closed => "closed") ++
-        " len=" ++ toString st.bodyLen ++ " rst=" ++ toString st.rst ++ " goaway=0 rq=0 out=" ++ CgiDrv.fastHex st.out
-  | _, _ => "bad-op"
+        " len=" ++ toString st.bodyLen ++ " rst=" ++ toString st.rst ++ " goaway=" ++ (if st.goaway then "1" else "0") ++
+        " st=" ++ toString st.status ++ " rb=" ++ rb ++ " rq=0 out=" ++ CgiDrv.fastHex st.out
+  | _, _, _ => "bad-op"
 
 def cgiLine (toks : List String) : String :=
   match toks with
-  | ["h2data", cl, body, frames, _seg] => CgiDrv.h2dataLine cl body frames
+  | ["h2data", cl, maxkb, cons, body, frames, _seg] => CgiDrv.h2dataLine cl maxkb cons body frames
   | op :: rest =>
     -- split at the "P" marker: everything after it is the parsed request
     let pre := rest.takeWhile (· ≠ "P")
